@@ -209,25 +209,21 @@ def differential(fam, cfg, seed, n=2):
         pctx = PinnedCtx(ex, model)
         prev = core.CUR
         core.CUR = pctx
+        sym_claims = {}
         try:
             try:
                 _run_wrapped(fam, pctx, cfg)
-            except PathAbort:
+            except (PathAbort, NonFinite):
                 continue
-            except NonFinite:
-                continue
+            done += 1
+            for nme, cond, _ in pctx.claims:
+                if isinstance(cond, SymBool):
+                    ok = (pctx.check(Not(cond)) == "unsat")
+                else:
+                    ok = bool(cond)
+                sym_claims[nme] = sym_claims.get(nme, True) and ok
         finally:
             core.CUR = prev
-        done += 1
-        sym_claims = {}
-        for nme, cond, _ in pctx.claims:
-            if isinstance(cond, SymBool):
-                r = pctx.check(Not(cond))
-                ok = (r == "unsat")
-            else:
-                ok = bool(cond)
-            sym_claims.setdefault(nme, True)
-            sym_claims[nme] = sym_claims[nme] and ok
         con_claims = {}
         for nme, ok, _ in cctx.claims:
             con_claims.setdefault(nme, True)
@@ -236,12 +232,35 @@ def differential(fam, cfg, seed, n=2):
             diff = {k: (sym_claims.get(k), con_claims.get(k)) for k in set(sym_claims) | set(con_claims)
                     if sym_claims.get(k) != con_claims.get(k)}
             problems.append({"cfg": cfg, "model": {k: str(v) for k, v in model.items()}, "claims(sym,float)": diff})
+        vals = None
         for k, v in pctx.notes.items():
             w = cctx.notes.get(k)
             if w is None:
                 continue
-            va = [float(t) if not isinstance(t, Sym) else float(t.const()) if t.is_const() else None
-                  for t in np.asarray(v, dtype=object).reshape(-1)]
+            va = []
+            for t in np.asarray(v, dtype=object).reshape(-1):
+                if not isinstance(t, Sym):
+                    va.append(float(t))
+                elif t.is_const():
+                    va.append(float(t.const()))
+                else:
+                    # purified (irrational) value: evaluate the polynomial in a model of the pinned path
+                    if vals is None:
+                        core.CUR = pctx
+                        try:
+                            vals = list(pctx.model_all().values()) if pctx.check(core.z3.BoolVal(True)) == "sat" else []
+                        finally:
+                            core.CUR = prev
+                    if not vals:
+                        va.append(None)
+                        continue
+                    tot = 0.0
+                    for mono, c in t.p.items():
+                        term = float(c)
+                        for i in mono:
+                            term *= float(vals[i])
+                        tot += term
+                    va.append(tot)
             wa = [float(t) for t in np.asarray(w, dtype=float).reshape(-1)]
             if len(va) != len(wa) or any(a is None or abs(a - b) > 1e-7 * max(1, abs(a), abs(b)) for a, b in zip(va, wa)):
                 problems.append({"cfg": cfg, "note": k, "sym": va[:8], "float": wa[:8]})
